@@ -583,11 +583,17 @@ def make_reward_fn(spec, domain):
             return r.choice([0.0, 0.25, 0.5])
         if kind == "unit":
             return r.random()
+        if kind == "bernoulli":
+            return 1.0 if r.random() < spec.get("p", 0.5) else 0.0
         raise HarnessError("unknown reward kind " + kind)
 
+    offset = spec.get("offset", 0.0)
+
     def f(i, p):
-        v = base(i, p) * scale
+        v = base(i, p) * scale + offset
         t = tmix[(i - 1) % len(tmix)]
+        if t == "b":
+            return np.bool_(v > 0.5)
         if t == "i":
             return int(round(v)) if abs(v) < 1e15 else float(v)
         if t == "n":
@@ -597,6 +603,8 @@ def make_reward_fn(spec, domain):
 
 
 def tag(v):
+    if isinstance(v, np.bool_):
+        return ["b", bool(v)]
     if isinstance(v, (bool,)):
         return ["f", float(v)]
     if isinstance(v, int):
@@ -610,6 +618,8 @@ def untag(tv):
     if isinstance(tv, (int, float)):
         return tv
     t, v = tv
+    if t == "b":
+        return np.bool_(v)
     if t == "i":
         return int(v)
     if t == "n":
